@@ -1033,6 +1033,8 @@ def record_trace(rng, mode, nwords, nsessions, nops, script=None, lay=None, forc
                 now = last_obs[0]
             if plan is not None:
                 c = plan[k]
+                if c["op"] in ("refset", "refremove") and c["i"] > len(now):
+                    break       # (replay on another tree: the recorded history no longer applies from here)
             elif undo is not None:
                 c = undo_step(rng, now, undo)
                 if c is None:
@@ -1188,7 +1190,25 @@ def undo_step(rng, now, target):
 def corrupt(t, how):
     import copy
     t = copy.deepcopy(t)
+    first_open = t["events"][0]["obs"] if t["events"] and t["events"][0]["op"] == "open" else None
+    reentered = False
     for e in t["events"]:
+        reentered = reentered or e["op"] == "reenter"
+        if how == "badmoved" and e.get("bad") and e["res"] != "ok" and e["obs"]:
+            e["obs"] = e["obs"][:-1]                           # a refused value nevertheless changed the list
+            return t
+        if how == "staleround" and reentered and e["op"] == "close" and e["res"] == "ok" and e["obs"] \
+                and first_open is not None and e["obs"] != first_open and e["doc"] == "ok":
+            e["obs"] = first_open                              # a later round of the same object was not written
+            return t
+        if how == "faultwrote" and e["op"] == "close" and e["res"] == "Fault":
+            e["doc"] = "Fault on leaving but the document changed"
+            return t
+        if how == "faultfree" and e["op"] == "close" and e["res"] == "ok":
+            e["res"] = "Fault"                                 # (only legal while a faulting formatter is installed)
+            if not any(x["op"] in ("vfmtx", "vfmtxf") for x in t["events"]):
+                return t
+            return None
         if how == "drop" and e["op"] == "append" and e["res"] == "ok" and len(e["obs"]) >= 2:
             e["obs"] = e["obs"][:-2] + e["obs"][-1:]          # a value vanished on append
             return t
@@ -1216,7 +1236,7 @@ def tlc_trace(t):
 def validate(ctx, traces, with_controls=True):
     controls = []
     if with_controls:
-        for how in ("drop", "order", "refuse", "doc", "open"):
+        for how in ("drop", "order", "refuse", "doc", "open", "badmoved", "staleround", "faultwrote", "faultfree"):
             for t in traces:
                 c = corrupt(t, how)
                 if c:
@@ -1399,6 +1419,9 @@ def run(ctx):
             rest = [c for c in cases if not any(len(v) > 1 for v in c["v0"])]
             keep = set(rng.sample(range(len(rest)), min(len(rest), 3600 - len(first))))
             cases = first + [c for i, c in enumerate(rest) if i in keep]
+        elif not quick and len(cases) > 80000:      # (the refused-value steps added half as many cases again)
+            keep = set(rng.sample(range(len(cases)), 80000))
+            cases = [c for i, c in enumerate(cases) if i in keep]
         per_op = {}
         nconc = 1
         for ci, case in enumerate(cases):
